@@ -2923,7 +2923,14 @@ class WBEMConnection:  # pylint: disable=too-many-instance-attributes
                         conn_id=self.conn_id)
         else:
             # class-level invocation
-            for classpath, klass in objects:
+            for obj in objects:
+                if not isinstance(obj, tuple) or len(obj) != 2:
+                    raise CIMXMLParseError(
+                        _format("Expecting tuple (CIMClassName, CIMClass) "
+                                "in result list, got {0} object",
+                                obj.__class__.__name__),
+                        conn_id=self.conn_id)
+                classpath, klass = obj
                 if not isinstance(classpath, CIMClassName) or \
                         not isinstance(klass, CIMClass):
                     raise CIMXMLParseError(
